@@ -25,6 +25,12 @@ MSGS = {
     'UPD1': (UPD_ROUTE, dict(kind='UPD')),
     'NOTI_VER': (frame(3, b'\x02\x01'), dict(kind='NOTI', code=2, sub=1)),
     'NOTI_CEASE': (frame(3, b'\x06\x02'), dict(kind='NOTI', code=6, sub=2)),
+    'NOTI_HDR': (frame(3, b'\x01\x02\x00\x13'), dict(kind='NOTI', code=1, sub=2)),
+    'NOTI_UPD': (frame(3, b'\x03\x01'), dict(kind='NOTI', code=3, sub=1)),
+    'NOTI_HOLD': (frame(3, b'\x04\x00'), dict(kind='NOTI', code=4, sub=0)),
+    'NOTI_FSM': (frame(3, b'\x05\x00'), dict(kind='NOTI', code=5, sub=0)),
+    'NOTI_RR': (frame(3, b'\x07\x01'), dict(kind='NOTI', code=7, sub=1)),
+    'NOTI_UNK': (frame(3, b'\x09\x63abc'), dict(kind='NOTI', code=9, sub=99)),
     'RR': (frame(5, b'\x00\x01\x00\x01'), dict(kind='RR')),
     'BADMARK': (b'\x00' * 16 + b'\x00\x13\x04', dict(kind='BADMARK')),
     'BADLEN': (b'\xff' * 16 + b'\x00\x12\x04', dict(kind='BADLEN')),
@@ -41,7 +47,7 @@ MSGS = {
 }
 ODD_LENGTH = ['OPEN_short', 'UPD_short', 'NOTI_short', 'KA_long', 'RR_short', 'RR_orf']
 ALPHABET_C01 = ['OPEN', 'OPEN_h0', 'OPEN_h1', 'OPEN_h2', 'OPEN_h9', 'OPEN_badver', 'OPEN_badas',
-                'KA', 'UPD', 'UPD1', 'NOTI_VER', 'NOTI_CEASE', 'RR', 'BADMARK', 'BADLEN', 'BADLEN0',
+                'KA', 'UPD', 'UPD1', 'NOTI_VER', 'NOTI_CEASE', 'NOTI_HDR', 'NOTI_UPD', 'NOTI_HOLD', 'NOTI_FSM', 'NOTI_RR', 'NOTI_UNK', 'RR', 'BADMARK', 'BADLEN', 'BADLEN0',
                 'BADLEN4097', 'BADTYPE']
 ALPHABET_SMALL = ['OPEN', 'OPEN_h1', 'OPEN_badas', 'KA', 'UPD', 'NOTI_VER', 'NOTI_CEASE', 'BADMARK']
 
@@ -110,6 +116,9 @@ def apply_event(w, ev, rng=None):
     elif name in ('PEERCLOSE', 'PEERRESET'):
         trs = w.open_transports()
         ok = idx < len(trs) and w.peer_close(trs[idx], clean=(name == 'PEERCLOSE'))
+    elif name == 'LOSTCONN':
+        ok = reactor.sim_complete_close(idx)
+        w.settle()
     elif name == 'STOP':
         code, body = w.stop()
         ok = (code, body)
@@ -146,6 +155,9 @@ def enabled(w, alphabet, multi=False, stopstart=True, rest=()):
         ev += ['PEERCLOSE' + s, 'PEERRESET' + s]
     if reactor._calls:
         ev.append('TICK')
+    if reactor.defer_io:
+        for i in range(len(reactor._io_pending) if multi else min(len(reactor._io_pending), 1)):
+            ev.append('LOSTCONN' + ('' if i == 0 else '#%d' % i))
     if stopstart:
         ev += ['STOP', 'START']
     return ev
